@@ -365,12 +365,16 @@ def run(chk: Check) -> None:
         "nullable or not), a discriminator family (9 object types over {a,b}; complete mapping and every partial mapping); payloads = every "
         "canonical instance of every variant (discriminator family: with every variant's tag, i.e. also mis-tagged bodies); thorough adds "
         "4-variant unions (objects over {a,b}; mixed; discriminator family) and all three positions for every union of <=3 variants; each pair is replayed on the "
-        "real converter (direct) and ~200 unions additionally through generated packages; non-trivial = distinct union with >=2 variants"
+        "real converter (direct) and ~250 unions additionally through generated packages; an 'extra' family adds required-and-nullable fields "
+        "(payload value null) and non-injective discriminator mappings (two values -> one variant); history replays decode another union with "
+        "an equal (property, value -> class name) table first through the same converter module (direct: same-named make_dataclass families; "
+        "generated: two clients sharing one core package); non-trivial = distinct union with >=2 variants"
     )
     chk.assumptions += [
-        "JSON equality: numbers numerically (1 = 1.0), booleans/strings are not numbers, a null-valued key equals an absent key",
+        "JSON equality: numbers numerically (1 = 1.0), booleans/strings are not numbers; a null-valued key of the RE-ENCODING that the payload lacks is tolerated, "
+        "a key the payload carries (even with null) must come back",
         "payloads that conform to no variant (only possible for mis-tagged bodies without the discriminator property) are not judged",
-        "every union is replayed in the state of a freshly started client (converter module re-executed, typing caches cleared): "
+        "except in history replays, every union is replayed in the state of a freshly started client (converter module re-executed, typing caches cleared): "
         "Union[A,B] == Union[B,A] in Python, so typing/cattrs caches would otherwise hand List[Union[B,A]] to a later Union[A,B]",
         "the produced variant is identified by the class of the result (dataclass variants) or its Python kind (other variants)",
     ]
